@@ -8,6 +8,11 @@ old == new.  For the pairs of the length <= 3 universe every command line of eve
 each of eight malformed commands, and every script is cut at every point inside a text block; each of
 these must raise ValueError.
 
+The lengths named in this text are those of the quick tier (base space: lists of length <= 4).  The thorough tier
+explores the base space up to length 7, the first look-alike space up to length 5, the second up to length 4, files of
+12, 102 and 1002 lines in the 'long' space, corruptions and input kinds of valid scripts on the length <= 5 universe
+(all kinds for corrupted scripts up to length 3); bounds() states the numbers for either tier.
+
 Input kinds: patches_from_ed_script takes an Iterable of lines and reads it through iter().  Every script of the base
 space whose two lists have length <= 3, and every script of the 'long' space, is supplied again as a tuple, as
 iter(list), as a generator, as io.StringIO / io.BytesIO of the joined text and as an open (temporary) file positioned at
@@ -37,18 +42,18 @@ BUDGET = {"quick": 240, "thorough": 3000}
 LOOKALIKES = ["..\n", ". \n"]
 # content lines that look like commands or like the text-block terminator; they must travel through a text block unchanged
 LOOKALIKES2 = ["1d\n", "2a\n", "1,2c\n", "0a\n", "...\n", ".x\n", " .\n"]
-LOOK_MAXLEN = 2
+LOOK_MAXLEN = {"quick": 2, "thorough": 4}
 BADS = [("garbage", "x\n"), ("unknown-command", "1z\n"), ("non-numeric-range", "1,a\n"), ("no-address", "a\n"),
         ("negative-address", "-1d\n"), ("blank-before-command", "1 d\n"), ("range-on-append", "1,2a\n"),
         # beyond DESIGN.md's seven: nothing may follow the command letter (a regex that lost its "$" accepts it)
         ("trailing-garbage", "1dx\n")]
-MAXLEN = {"quick": 4, "thorough": 5}
-EXT_MAXLEN = 3
-CORRUPT_MAXLEN = 3
+MAXLEN = {"quick": 4, "thorough": 7}
+EXT_MAXLEN = {"quick": 3, "thorough": 5}
+CORRUPT_MAXLEN = {"quick": 3, "thorough": 5}
 KINDS = ["tuple", "iter", "generator", "stream", "file"]        # besides "list"
 KINDS_FEW = ["iter", "stream"]
-KIND_MAXLEN = 3
-KIND_CORRUPT_ALL_MAXLEN = 2
+KIND_MAXLEN = {"quick": 3, "thorough": 5}
+KIND_CORRUPT_ALL_MAXLEN = {"quick": 2, "thorough": 3}
 
 selfcheck_result = None
 
@@ -62,21 +67,34 @@ def symbols(seed):
 
 def bounds(tier):
     n = MAXLEN[tier]
-    k = sum(3 ** i for i in range(n + 1))
-    return {"base": "all (old, new) pairs of line lists of length <= %d over 3 ordinary lines: %d^2 = %d pairs" % (n, k, k * k),
-            "lookalikes": "all pairs of lists of length <= %d over the 3 lines + %r: 156^2 = 24336 pairs, of which the "
-                          "1600 without a look-alike are already in the base space and are not repeated" % (EXT_MAXLEN, LOOKALIKES),
-            "lookalikes2": "all pairs of lists of length <= %d over the first ordinary line + %r: 73^2 = 5329 pairs, of which the "
-                           "9 without such a line are in the base space and are not repeated; model script only"
-                           % (LOOK_MAXLEN, LOOKALIKES2),
+
+    def count(symbols, maxlen):
+        return sum(symbols ** i for i in range(maxlen + 1))
+    k = count(3, n)
+    ne, nl = EXT_MAXLEN[tier], LOOK_MAXLEN[tier]
+    ke, kl = count(3 + len(LOOKALIKES), ne), count(1 + len(LOOKALIKES2), nl)
+    out = {"base": "all (old, new) pairs of line lists of length <= %d over 3 ordinary lines: %d^2 = %d pairs" % (n, k, k * k),
+            "lookalikes": "all pairs of lists of length <= %d over the 3 lines + %r: %d^2 = %d pairs, of which the "
+                          "%d without a look-alike are already in the base space and are not repeated"
+                          % (ne, LOOKALIKES, ke, ke * ke, count(3, ne) ** 2),
+            "lookalikes2": "all pairs of lists of length <= %d over the first ordinary line + %r: %d^2 = %d pairs, of which the "
+                           "%d without such a line are in the base space and are not repeated; model script only"
+                           % (nl, LOOKALIKES2, kl, kl * kl, (nl + 1) ** 2),
             "scripts": "edscript.diff for every pair; diff -e for every pair when /usr/bin/diff exists (executed on the "
                        "implementation when it differs textually from the model's script)",
             "types": ["str", "bytes"],
             "input_kinds": "list everywhere; %r for every valid script of the base space with both lists of length <= %d "
                            "and of the long space; corrupted / truncated scripts: all of these kinds for lists of length "
-                           "<= %d, %r for length <= %d" % (KINDS, KIND_MAXLEN, KIND_CORRUPT_ALL_MAXLEN, KINDS_FEW, CORRUPT_MAXLEN),
+                           "<= %d, %r for length <= %d" % (KINDS, KIND_MAXLEN[tier], KIND_CORRUPT_ALL_MAXLEN[tier], KINDS_FEW,
+                                                          CORRUPT_MAXLEN[tier]),
             "corruptions": "pairs of length <= %d of the base space: every command line x %r; every cut inside a text "
-                           "block" % (CORRUPT_MAXLEN, [b for _, b in BADS])}
+                           "block" % (CORRUPT_MAXLEN[tier], [b for _, b in BADS])}
+    if tier != "quick":
+        out["long"] = ("files of %s lines (addresses of %s digits at the end of the file): one hunk and two non-overlapping "
+                       "hunks at the top and around the last five lines" % (
+                           " / ".join(str(x) for x in long_sizes(tier)),
+                           " / ".join(str(len(str(x))) for x in long_sizes(tier))))
+    return out
 
 
 def assumptions():
@@ -114,29 +132,49 @@ def _has_lookalike2(l):
 def units(tier, seed):
     _selfcheck()
     sym = symbols(seed)
-    out = [{"space": "base", "old": old} for old in edscript.all_lists(sym, MAXLEN[tier])]
-    out += [{"space": "ext", "old": old} for old in edscript.all_lists(sym + LOOKALIKES, EXT_MAXLEN)]
-    out += [{"space": "look", "old": old} for old in edscript.all_lists(sym[:1] + LOOKALIKES2, LOOK_MAXLEN)]
-    # files long enough for two-digit addresses (9,10c / 10,12d / 12a): one and two hunks around lines 9..12 and line 1
-    out += [{"space": "long", "old": ["l%d\n" % i for i in range(1, LONG_LINES + 1)], "first": h}
-            for h in range(len(long_hunks()))]
+
+    def grouped(space, olds, size, alone=lambda old: False):
+        """one unit per old list (quick); thorough: `size` consecutive old lists per unit, except those that are `alone`"""
+        if tier == "quick":
+            return [{"space": space, "old": old} for old in olds]
+        us = []
+        for old in olds:
+            if alone(old) or not us or "old" in us[-1] or len(us[-1]["olds"]) >= size:
+                us.append({"space": space, "old": old} if alone(old) else {"space": space, "olds": []})
+            if "olds" in us[-1]:
+                us[-1]["olds"].append(old)
+        return us
+    # the units of the short old lists of the base space carry the corrupted scripts and the other input kinds
+    out = grouped("base", edscript.all_lists(sym, MAXLEN[tier]), 3, alone=lambda old: len(old) <= CORRUPT_MAXLEN[tier])
+    out += grouped("ext", edscript.all_lists(sym + LOOKALIKES, EXT_MAXLEN[tier]), 3)
+    out += grouped("look", edscript.all_lists(sym[:1] + LOOKALIKES2, LOOK_MAXLEN[tier]), 9)
+    # files long enough for two-digit addresses (9,10c / 10,12d / 12a): one and two hunks around lines 9..12 and line 1;
+    # thorough: also around lines 99..102 and 999..1002
+    for n in long_sizes(tier):
+        out += [{"space": "long", "old": ["l%d\n" % i for i in range(1, n + 1)], "first": h}
+                for h in range(len(long_hunks(n)))]
     return out
 
 
 LONG_LINES = 12
 
 
-def long_hunks():
+def long_sizes(tier):
+    return [LONG_LINES] if tier == "quick" else [LONG_LINES, 102, 1002]
+
+
+def long_hunks(n=LONG_LINES):
     """(first line, last line, replacement lines): delete/change ranges and insertions (first > last) near the
-    one-digit/two-digit boundary, at the very top and at the very end"""
+    boundary at which the addresses get one more digit (n = 12: 9/10), at the very top and at the very end of a file of n
+    lines"""
     hs = []
-    for i in (1, 8, 9, 10, 11, 12):
+    for i in (1, n - 4, n - 3, n - 2, n - 1, n):
         for j in (i, i + 1, i + 3):
-            if j > LONG_LINES:
+            if j > n:
                 continue
             for rep in ([], ["x\n"], ["x\n", "y\n"]):
                 hs.append((i, j, rep))
-    for after in (0, 8, 9, 10, 11, 12):
+    for after in (0, n - 4, n - 3, n - 2, n - 1, n):
         for rep in (["x\n"], ["x\n", "y\n"]):
             hs.append((after + 1, after, rep))
     return hs
@@ -144,7 +182,7 @@ def long_hunks():
 
 def long_news(old, first):
     """all results of applying hunk `first` alone and together with every later, non-overlapping hunk"""
-    hs = long_hunks()
+    hs = long_hunks(len(old))
 
     def apply(lines, hunks):
         out = list(lines)
@@ -166,6 +204,10 @@ def long_news(old, first):
 
 
 def unit_cost(u, tier):
+    if tier != "quick":
+        if "olds" in u:
+            return {"base": 3300, "ext": 3900, "look": 1000}[u["space"]] * len(u["olds"])
+        return {"base": 3300 + 6000, "long": 120}[u["space"]] + len(u["old"])
     return {"base": 400, "ext": 150, "look": 70, "long": 120}[u["space"]] + len(u["old"])
 
 
@@ -332,6 +374,16 @@ def _derived(old, new, script, src):
 
 def run_unit(u, tier, seed):
     part = core.Part()
+    if "olds" in u:
+        for old in u["olds"]:
+            _run_old(part, {"space": u["space"], "old": old}, tier, seed)
+    else:
+        _run_old(part, u, tier, seed)
+    return part
+
+
+def _run_old(part, u, tier, seed):
+    """all pairs (old, new) of one space for one old list"""
     sym = symbols(seed)
     old = u["old"]
     if u["space"] == "base":
@@ -339,16 +391,16 @@ def run_unit(u, tier, seed):
     elif u["space"] == "long":
         news = long_news(old, u["first"])
     elif u["space"] == "look":
-        news = edscript.all_lists(sym[:1] + LOOKALIKES2, LOOK_MAXLEN)
+        news = edscript.all_lists(sym[:1] + LOOKALIKES2, LOOK_MAXLEN[tier])
         if not _has_lookalike2(old):
             news = [n for n in news if _has_lookalike2(n)]
     else:
-        news = edscript.all_lists(sym + LOOKALIKES, EXT_MAXLEN)
+        news = edscript.all_lists(sym + LOOKALIKES, EXT_MAXLEN[tier])
         if not _has_lookalike(old):
             news = [n for n in news if _has_lookalike(n)]
     # the second look-alike space uses the model's script only
     differ = edscript.DiffE() if edscript.have_diff() and u["space"] != "look" else None
-    part.max_depth = 2 * {"base": MAXLEN[tier], "ext": EXT_MAXLEN, "look": LOOK_MAXLEN, "long": LONG_LINES}[u["space"]]
+    part.max_depth = 2 * {"base": MAXLEN[tier], "ext": EXT_MAXLEN[tier], "look": LOOK_MAXLEN[tier], "long": len(old)}[u["space"]]
 
     def run(case, outcome, nontrivial):
         bad = exec_case(case)
@@ -384,15 +436,15 @@ def run_unit(u, tier, seed):
                 run(case, "applied:" + ("+".join(forms) or "(empty script)"), len(forms) >= 2)
                 if idx in (1, len(news) // 2, len(news) - 1) and src == "model":
                     part.sample(case)
-                small = u["space"] == "base" and len(old) <= KIND_MAXLEN and len(new) <= KIND_MAXLEN
+                small = u["space"] == "base" and len(old) <= KIND_MAXLEN[tier] and len(new) <= KIND_MAXLEN[tier]
                 if small or u["space"] == "long":
                     run(dict(case, via=KINDS), "other input kinds (%s): applied:%s" % (
                         ", ".join(KINDS), "+".join(forms) or "(empty script)"), len(forms) >= 2)
                     part.extra["valid scripts x other input kinds"] += len(KINDS)
                     if idx == len(news) // 2 and src == "model":
                         part.sample(dict(case, via=KINDS))
-                if u["space"] == "base" and len(old) <= CORRUPT_MAXLEN and len(new) <= CORRUPT_MAXLEN:
-                    tiny = len(old) <= KIND_CORRUPT_ALL_MAXLEN and len(new) <= KIND_CORRUPT_ALL_MAXLEN
+                if u["space"] == "base" and len(old) <= CORRUPT_MAXLEN[tier] and len(new) <= CORRUPT_MAXLEN[tier]:
+                    tiny = len(old) <= KIND_CORRUPT_ALL_MAXLEN[tier] and len(new) <= KIND_CORRUPT_ALL_MAXLEN[tier]
                     for dcase, k, form in _derived(old, new, script, src):
                         part.states += 1
                         run(dcase, "rejected:%s@%s-command:%s" % (dcase["what"], "first" if k == 0 else "later", form), k > 0)
@@ -404,7 +456,6 @@ def run_unit(u, tier, seed):
     finally:
         if differ is not None:
             differ.close()
-    return part
 
 
 def replay(case):
